@@ -709,5 +709,33 @@ def _anc_nodes(repo, n):
         p = repo.parent(p)
 
 
+def r09_17(ctx):
+    """R09.17 the message of the loop error can be built for every loop: _found_dep_loop() prints each item, which reaches
+    MenuNode._sym_choice_node_str(); there the symbol printer `sc_expr_str_fn` is applied directly only to single symbols
+    (range bounds, select/imply/set targets) - a `default` value is an expression and goes through expr_str(). Printing it
+    with the symbol printer raises AttributeError on a tuple: the cyclic tree is then refused with the wrong exception and
+    without the loop in the message."""
+    repo = ctx.repo
+    f = repo.func(f"{CORE}:MenuNode._sym_choice_node_str")
+    ctx.analysed(f.qual, f"{CORE}:_found_dep_loop")
+    loops = [n for n in ast.walk(f.node) if isinstance(n, ast.For) and ast.unparse(n.iter).endswith("orig_defaults")
+             and isinstance(n.target, ast.Tuple) and n.target.elts and isinstance(n.target.elts[0], ast.Name)]
+    construct = "MenuNode._sym_choice_node_str/a default value is printed as an expression"
+    if not loops:
+        ctx.ok(construct, f.loc(), nontrivial=False, loops=0)
+        return
+    for lp in loops:
+        d = lp.target.elts[0].id
+        direct = [c for b in lp.body for c in ast.walk(b) if isinstance(c, ast.Call) and not (isinstance(c.func, ast.Name) and c.func.id == "expr_str")
+                  and not (isinstance(c.func, ast.Attribute) and c.func.attr == "expr_str")
+                  and any(isinstance(a, ast.Name) and a.id == d for a in c.args)
+                  and isinstance(c.func, ast.Name) and c.func.id.endswith("expr_str_fn")]
+        if direct:
+            ctx.bad(construct, f"`{ast.unparse(direct[0])}`: the symbol printer is applied to the default value, which is a tuple for `default A && !B` - "
+                    "printing a loop through such an option raises AttributeError instead of the KconfigError naming the loop", f.loc(direct[0]))
+        else:
+            ctx.ok(construct, f.loc(lp))
+
+
 def rules():
-    return [("R09.16", r09_16, 2), ("R09.15", r09_15, 1), ("R09.14", r09_14, 3), ("R09.13", r09_13, 4), ("R09.12", r09_12, 1), ("R09.11", r09_11, 1), ("R09.10", r09_10, 80), ("R09.9", r09_9, 1), ("R09.8", r09_8, 1), ("R09.7", r09_7, 2), ("R09.6", r09_6, 6), ("R09.1", r09_1, 14), ("R09.1b", r09_1b, 3), ("R09.2", r09_2, 6), ("R09.3", r09_3, 8), ("R09.4", r09_4, 5), ("R09.5", r09_5, 10)]
+    return [("R09.17", r09_17, 1), ("R09.16", r09_16, 2), ("R09.15", r09_15, 1), ("R09.14", r09_14, 3), ("R09.13", r09_13, 4), ("R09.12", r09_12, 1), ("R09.11", r09_11, 1), ("R09.10", r09_10, 80), ("R09.9", r09_9, 1), ("R09.8", r09_8, 1), ("R09.7", r09_7, 2), ("R09.6", r09_6, 6), ("R09.1", r09_1, 14), ("R09.1b", r09_1b, 3), ("R09.2", r09_2, 6), ("R09.3", r09_3, 8), ("R09.4", r09_4, 5), ("R09.5", r09_5, 10)]
